@@ -13,7 +13,7 @@ ENGINE_ASSUME = [
 ]
 
 
-def engine_parts(cancel=False, rendezvous=False):
+def engine_parts(cancel=False, rendezvous=False, cli=True):
     parts = [
         {"name": "exhaustive", "test": "TestExhaustive", "kind": "plain", "n": {Q: 3, T: 4},
          "shards": {Q: 8, T: 16}, "timeout": {Q: 400, T: 2400}},
@@ -25,6 +25,9 @@ def engine_parts(cancel=False, rendezvous=False):
                       "timeout": {Q: 400, T: 2400}, "shrinktime": "25s"})
         parts.append({"name": "realrunner", "pkg": "c12", "test": "TestCancel", "checks": {Q: 48, T: 800}, "shards": {Q: 8, T: 16},
                       "timeout": {Q: 500, T: 2400}, "shrinktime": "60s"})
+    if cli:
+        parts.append({"name": "cli", "pkg": "c01cli", "test": "TestCLI", "checks": {Q: 480, T: 8000}, "shards": {Q: 8, T: 16},
+                      "timeout": {Q: 500, T: 3000}, "shrinktime": "40s"})
     if rendezvous:
         parts.append({"name": "rendezvous", "pkg": "c04r", "test": "TestRendezvous", "checks": {Q: 320, T: 4800}, "shards": {Q: 8, T: 16},
                       "timeout": {Q: 500, T: 3000}, "shrinktime": "40s"})
@@ -35,11 +38,14 @@ ENGINE_RULE = ("exhaustive: every labelled DAG on n<=3 stages x every declaratio
                "{ok, fail, fail+allow_failure, condition false} x every completion order (thorough: also all 543 DAGs on 4 stages, "
                "declaration orders and outcome assignments from a PRNG seeded by VERIF_SEED, every completion order up to 24); "
                "random: rapid DAGs up to 8 stages with nested pipelines (depth<=2), condition-true stages, random declaration "
-               "order, completion order drawn at every quiescent point (single release or a subset at once). ")
+               "order, completion order drawn at every quiescent point (single release or a subset at once); cli: rapid pipelines of "
+               "2..8 stages with real shell tasks (durations 0..120 ms, outcomes ok / fail / stage-allowed / task-allowed / condition "
+               "false, task names that collide once normalised) run through the binary: start/end trace, executed set, summary and "
+               "exit status against a reference evaluation of the DAG. ")
 
 PROPS = {
     "C01": {
-        "pkg": "c01", "bin": False,
+        "pkg": "c01", "bin": True,
         "technique": "model-based stateful PBT: real Scheduler + checker-controlled Runner vs reference scheduler model; "
                      "exhaustive DAGs<=4 x completion orders + rapid state machine",
         "level_text": "Every entry into Runner.Run is compared with the set of stages the reference model allows to be in flight, at "
@@ -52,7 +58,7 @@ PROPS = {
         "assumptions": ENGINE_ASSUME, "parts": engine_parts(),
     },
     "C02": {
-        "pkg": "c01", "bin": False,
+        "pkg": "c01", "bin": True,
         "technique": "model-based stateful PBT + metamorphic (two independently drawn completion orders of the same pipeline must "
                      "give the same statuses / error / ran-set)",
         "level_text": "Set of executed tasks, final status of every stage and error-nil-ness of Schedule are compared with the "
@@ -64,7 +70,7 @@ PROPS = {
         "assumptions": ENGINE_ASSUME, "parts": engine_parts(),
     },
     "C03": {
-        "pkg": "c01", "bin": False,
+        "pkg": "c01", "bin": True,
         "technique": "model-based stateful PBT with injected cancellation (caller Cancel at a drawn quiescent point, unevaluable stage "
                      "condition at a drawn node); bounded-liveness oracle with one enlarged retry",
         "level_text": "Schedule must return within a bound >=1000x the normal case time after the last release; afterwards no stage is "
